@@ -181,9 +181,40 @@ def extra(local, sc, cfg, sr, hev, wire, out):
     acceptors.flush(local, sc, cfg, hev, wire)     # barrier() relies on the flush loop's return-value rule
 
 
+def cached_work_runs(res, seed):
+    """barrier() must also complete the work that containers park in caches and release through pre-barrier callbacks
+    (counting_set's insert cache, reducing_adapter's per-hop caches, also when a relay handler parked it): the quick scenario
+    families of C15 / C16 are run here with their direct oracles only (what the owners hold after each barrier = everything issued
+    before it); a failure is reported as work a barrier left behind.  The Lean side of these families belongs to C15 / C16."""
+    from props import c15, c16
+    binary, err = C.build_harness("cache")
+    if binary is None:
+        res.corr_failures.append({"relation": "harness builds against /repo", "what": err[-800:], "case": None})
+        return
+    for fam, mod, runner, checker in (("c15", c15, lambda b, sc, case, i: c15.run_case(b, sc, case, i), c15.check_cset),
+                                      ("c16", c16, c16.run_one, c16.check_reduce)):
+        sub = C.Result()
+        cases = mod.make_cases("quick", seed)
+        with c15.Scratch() as sc:
+            def do(ic):
+                i, case = ic
+                return (case,) + runner(binary, sc, case, i)
+            results = C.pmap(do, list(enumerate(cases)))
+        for case, sr, universe, ops in results:
+            checker(sub, case, sr, universe, ops, False)
+        res.evaluations += sub.evaluations
+        res.count(f"cached-work family {fam}: runs judged", len(cases))
+        for f in sub.oracle_failures:
+            f = dict(f)
+            f["signature"] = "barrier-left-cached-work " + str(f.get("signature"))
+            f["what"] = "work parked in a container cache was not completed by barrier(): " + str(f.get("what"))
+            f["case"] = dict(f.get("case") or {}, family=fam)
+            res.oracle_failures.append(f)
+
+
 def run(tier, seed, model_ok=True):
     res = C.Result()
-    res.rule = ("seeded multi-epoch scenarios (ranks arriving at barriers at very different times, handlers that keep spawning work, pre-barrier callbacks registered from "
+    res.rule = ("[plus the quick cache scenarios of C15 / C16 judged by their direct oracles: work parked in container caches must be completed by barrier()] seeded multi-epoch scenarios (ranks arriving at barriers at very different times, handlers that keep spawning work, pre-barrier callbacks registered from "
                 "main and from handlers, a trailing batch before the destructor's barrier; a third of them with barriers of a SECOND ygm::comm of the same process between the epochs) "
                 "x layouts x routings x capacity x policy (racer/late/...); distinct = (config, shape). Directed: the classic single-round counter-example schedule on 3 ranks, "
                 "sampled (120 / 1500 schedules), explored by single deviations from base schedules, and FORCED with simmpi gates + a delivery hold (32 / 400 runs, half of them "
@@ -196,6 +227,7 @@ def run(tier, seed, model_ok=True):
     K.run_cases(res, binary, cases(tier, seed) + directed_cases(tier, seed) + systematic_cases(binary, tier, seed), WANT,
                 extra=extra if model_ok else None)
     dtor_runs(res, tier, seed)
+    cached_work_runs(res, seed)
     if res.oracle_failures and "scenario" in (res.oracle_failures[0].get("case") or {}):
         res.oracle_failures[0] = K.shrink(binary, res.oracle_failures[0], WANT)
     return res
@@ -203,6 +235,9 @@ def run(tier, seed, model_ok=True):
 
 def replay(data):
     case = data.get("case") or {}
+    if case.get("family") in ("c15", "c16"):
+        from props import c15, c16
+        return (c15 if case["family"] == "c15" else c16).replay(data)
     if case.get("harness") == "dtor":
         binary, err = C.build_harness("dtor", sanitize=bool(case.get("sanitize")), san=case.get("sanitize") or "address,undefined")
         env = {"YGM_COMM_ROUTING": case["routing"]}
